@@ -98,8 +98,8 @@ def run_case(case_seed, steps, stats):
             return None
         mp = integerise(mp, rng, case_cplx and rng.random() < 0.7)
         co = rng.choice([1, 1, 2, -1, 3])
-        if case_cplx and rng.random() < 0.4:
-            co = complex(co, rng.choice([1, -1, 2]))
+        if case_cplx and rng.random() < 0.6:
+            co = complex(co, rng.choice([1, -1, 2]))      # also on REAL tensors (integerise made them complex only with p = 0.7)
         mp.coeff = co
         mp.move_qnidx(rng.randrange(nsite))
         mp.to_right = rng.random() < 0.5
